@@ -50,6 +50,11 @@ CLAIMED.update({
    text='Lifecycle.lean mirrors step/finish/build/setters/_check_timeout/_is_max_steps_exceeded line by line; inputs are the public calls, each with the abstract outcome of next() and a clock reading. Proved for every reachable state / op sequence: premature => no verdict; history length <= positive step limit; a limit above the natural length changes nothing; exceeding the time limit raises and leaves the tableau finished; finished is absorbing; argument/logic/rules are frozen after start; no argument => no verdict.',
    note=TB2 + 'The real wall clock and the chooser are outside the model: the theorem is about what the state machine does GIVEN a clock reading and next() outcome; the harness drives both deterministically on real tableaux.'),
 })
+CLAIMED.update({
+ 'C03': dict(level='proof', technique='Lean 4 proof: meaning of the truth-table oracle (complete enumeration) and closed => truth-table valid for every legal derivation (from C01), per logic; exhaustive-small + random propositional sweep comparing verdicts with the oracle',
+   text='ttValid enumerates every assignment of the logic\'s values to the sentence letters; C03_ttValid_iff proves it is true exactly when no assignment is a counterexample; C03_closed_implies_ttValid proves, for every legal derivation (any options / tie-breaks / build or step), that a closed tableau of a propositional argument is truth-table valid, instantiated for all 57 logics. Completeness (tt-valid => closed) and termination without limits are not theorems yet; they are decided on the sweep (per logic: arguments over the 30 sentences of depth <= 1 on two letters, exhaustive in the thorough tier, plus random deeper ones): verdict = ttValid by the Lean driver and by an independent Python enumeration, not premature, no quit flag.',
+   note=TB + ' Partial: the completeness half and termination rest on the correspondence sweep, not on a theorem (tools: DESIGN.md section 6 C03).'),
+})
 PENDING = 'check not built yet in this round (planned: Lean 4 proof + correspondence, see DESIGN.md section 6)'
 NOT_APPLICABLE = {}
 
